@@ -100,7 +100,7 @@ def check_cfg(fx, rep, crate, cfg):
         rep.check(ok, 'R09.1', '%s|exit|%s|%s' % (fk, origin, cfg), C.where(run, b, i),
                   'exit of the server loop fed only by %s' % ('Listener::accept' if origin == 'accept' else 'the infallible outer result of the call select'),
                   'Server::run can return because of %s: a fault on one connection ends the whole server' % origin)
-    rep.floor('R09.1', 2, 'exits of Server::run')
+    rep.floor('R09.1', 1, 'exits of Server::run')
     # ---------------- R09.2 failure arms remove exactly the failing entry
     kc, arm_c = S.arm_of_kind('calls')
     ks, arm_s = S.arm_of_kind('streams')
